@@ -106,7 +106,7 @@ pub fn query_table(o: TableOpts) -> BoxedStrategy<LogicalTable> {
                 proptest::option::weighted(0.7, qcolumn(ColType::Float, n, nullable, false)),
                 proptest::option::weighted(0.8, qcolumn(ColType::Str, n, nullable, false)),
                 proptest::option::weighted(0.3, qcolumn(ColType::Str, n, nullable, false)),
-                proptest::option::weighted(if late { 0.3 } else { 0.0 }, (qcolumn(ColType::Int, n, false, false), any::<u16>())),
+                proptest::option::weighted(if late { 0.3 } else { 0.000001 }, (qcolumn(ColType::Int, n, false, false), any::<u16>())),
             )
                 .prop_map(move |(i0, i1, f0, s0, s1, late)| {
                     let mut cols = BTreeMap::new();
